@@ -27,6 +27,7 @@ THEOREMS = [
     "C12_route_independent_partial", "C12_route_pyproject_refuted", "C12_finish_exact",
     "C12_packaging_independent_open", "C12_packaging_independent", "C12_packaging_independent_exists_partial",
     "C12_exists_dirs_refuted", "C12_real_cwd_irrelevant",
+    "C12_frame_partial", "C12_sequence_independent", "C12_failure_is_local", "C12_insert_leak_refuted",
 ]
 RULE = ("(a) generated setup()/setup.cfg declarations (canonical and re-spelled requirement lines, markers with "
         "and/or/groups, extras keys 'e', ':marker', 'e:marker', blank, quoted; str-vs-list shapes; ~15% malformed: bad "
@@ -37,11 +38,17 @@ RULE = ("(a) generated setup()/setup.cfg declarations (canonical and re-spelled 
         "x 3 real cwds x shuffled analysis orders, compared with meta_of(decl) and with each other; (c) a probe setup.py "
         "queries the live extractor (exists/open/contains_path/to_relative) for generated path spellings and chdirs, "
         "compared with the PathMap model.  Non-trivial = a requirement with a composed marker was produced / a file was "
-        "resolved inside an archive; distinct = distinct (declaration | program | project, query).")
+        "resolved inside an archive; distinct = distinct (declaration | program | project, query).  (e) frame condition: "
+        "sequences of 2-4 generated projects (plain helper import | sys.path.pop(0) / filter / remove of the setup dir | "
+        "sys.path.insert of src | raise | sys.exit | chdir | PEP 517 ok | PEP 517 hook raising; shared helper-module names; "
+        "absolute and relative paths from one cwd) analysed in one process: after EVERY analysis os.getcwd(), sys.path, "
+        "sys.meta_path, project modules in sys.modules and every patched attribute are compared with the state before and "
+        "with the FrameC12 model, every result with the project's own declaration.")
 TRUSTED_BASE = [
     "T1 harness/tr_c12.py: separators/format strings of parse_req_with_marker and setup(), the './' and back-slash rules of to_relative, the packaging dispatch of extract_metadata -> gen/HarvestC12Consts.v",
     "T2 harness/c12.py: generators, project renderer (tar/zip/dir), probe module, canonicalisation",
     "packaging 26.3 Requirement/Marker parse+print, configparser, tarfile/zipfile/os.path.exists are specifications validated by T2 only",
+    "T1 tr_c12.read_frame: statements, order and guards of the finally-block of _parse_setup_py, the begin_patch/patch() targets, try/finally of patch() and of the chdir in _parse_from_prepared_metadata -> gen/FrameC12Consts.v",
     "execution of setup.py programs is NOT modelled: the idiom family is tested (T2 b), not proved",
     "modelled, not verified: req_compile/metadata/source.py setup/_add_setup_cfg_kwargs/parse_req_with_marker/_fetch_from_setup_py, extractor.py, metadata.py dispatch",
 ]
@@ -60,7 +67,12 @@ LEVEL_TEXT = ("16 theorems over Gallina models of the setup()/setup.cfg harveste
               "consults the real file system / real cwd; six _refuted witnesses (or-precedence, 'extra:marker' keys, '..' "
               "spellings, setup.cfg-only and pyproject-only projects in archives, directory members missing from a tar), four "
               "of them replayed on /repo as known findings.  That real setup.py programs of the idiom family stay inside these "
-              "models is TESTED (T2 b: generated programs x 3 packagings x 3 cwds x shuffled orders), not proved.")
+              "models is TESTED (T2 b: generated programs x 3 packagings x 3 cwds x shuffled orders), not proved.  Frame "
+              "condition (orders / earlier analyses / failures): over a state machine {cwd, sys.path, hooks, project modules, "
+              "patched attributes} whose clean-up steps are generated from /repo's finally-blocks, one analysis gives the state "
+              "back for every script that adds nothing to sys.path (raising, sys.exit, popping the setup dir, chdir, failing PEP 517 "
+              "hook included), hence every sequence gives each project the result it gets alone; refuted for sys.path insertions "
+              "(known finding).")
 LEVEL_NOTE = ("Trusted: Coq kernel, extraction, OCaml driver, T1/T2 harness; packaging/configparser/tarfile/zipfile semantics "
               "validated by sampling only; no semantics of Python: arbitrary setup scripts are outside the theorems.")
 TECHNIQUE = "Rocq proof over Gallina models (lexer automaton + fuelled parser compositionality, path algebra) + extraction-based differential correspondence"
@@ -1436,12 +1448,324 @@ def _atoms_of(ms: Any) -> List[str]:
 
 
 # ======================================================================================
+# T2 (e): the frame condition - global state before/after every analysis, sequences of projects
+
+
+def frame_attr_names() -> List[str]:
+    import tr_c12
+    try:
+        steps, begin, ctxp, ctx_ok, restored, pep = tr_c12.read_frame()
+    except Exception:      # T1 failing is reported by translate(); the frame check must still run
+        begin = ["importlib.util.spec_from_file_location", "importlib.util.module_from_spec", "imp.load_source"]
+        ctxp = ["sys.stderr", "sys.stdout", "sys.stdin", "os._exit", "os.symlink", "builtins.open", "subprocess.check_call",
+                "subprocess.check_output", "subprocess.Popen", "multiprocessing.Pool", "multiprocessing.Process",
+                "urllib.request.urlretrieve", "requests.Session", "requests.get", "requests.post", "os.listdir",
+                "os.path.exists", "os.path.isfile", "os.rename", "io.open", "codecs.open", "setuptools.setup",
+                "distutils.core.setup", "fileinput.input", "setuptools.find_packages", "sys.argv"]
+    names = []
+    for n in begin + ctxp + ["os.chdir", "os.getcwd", "os.path.abspath"]:
+        if n not in names:
+            names.append(n)
+    return names
+
+
+def _resolve_attr(name: str) -> Any:
+    import importlib
+    parts = name.split(".")
+    for i in range(len(parts) - 1, 0, -1):
+        modname = ".".join(parts[:i])
+        mod = sys.modules.get(modname)
+        if mod is None:
+            try:
+                mod = importlib.import_module(modname)
+            except Exception:
+                continue
+        obj = mod
+        try:
+            for a in parts[i:]:
+                obj = getattr(obj, a)
+        except AttributeError:
+            return ("<absent>",)
+        return obj
+    return ("<absent>",)
+
+
+class Frame:
+    """the process-global state the bracket of extract_metadata must give back"""
+
+    def __init__(self, names: List[str]):
+        self.names = names
+        self.cwd = os.getcwd()
+        self.path = list(sys.path)
+        self.meta = list(sys.meta_path)
+        self.mods = dict(sys.modules)
+        self.attrs = {n: (list(sys.argv) if n == "sys.argv" else _resolve_attr(n)) for n in names}
+        self.root_level = logging.getLogger().level
+
+    def delta(self) -> Dict[str, Any]:
+        """what differs NOW from the snapshot, in the model's terms"""
+        out: Dict[str, Any] = {}
+        out["cwd"] = os.getcwd()
+        out["path"] = list(sys.path)
+        out["hooks"] = len([h for h in sys.meta_path if all(h is not m for m in self.meta)])
+        own = []
+        for name, mod in list(sys.modules.items()):
+            if name in self.mods and self.mods[name] is mod:
+                continue
+            f = getattr(mod, "__file__", None)
+            if isinstance(f, str) and f and (not os.path.isabs(f) or not os.path.exists(f)):
+                own.append(name)
+        out["modules"] = sorted(own)
+        pat = []
+        for n in self.names:
+            cur = list(sys.argv) if n == "sys.argv" else _resolve_attr(n)
+            if (cur != self.attrs[n]) if n == "sys.argv" else (cur is not self.attrs[n] and cur != self.attrs[n]):
+                pat.append(n)
+        out["patched"] = sorted(pat)
+        return out
+
+    def restore(self) -> None:
+        os.chdir(self.cwd)
+        sys.path[:] = self.path
+        sys.meta_path[:] = self.meta
+        for name in list(sys.modules):
+            if name not in self.mods:
+                f = getattr(sys.modules[name], "__file__", None)
+                if isinstance(f, str) and f and (not os.path.isabs(f) or not os.path.exists(f)):
+                    del sys.modules[name]
+        import importlib
+        for n, v in self.attrs.items():
+            if v == ("<absent>",):
+                continue
+            parts = n.split(".")
+            for i in range(len(parts) - 1, 0, -1):
+                mod = sys.modules.get(".".join(parts[:i]))
+                if mod is not None and len(parts) - i == 1:
+                    try:
+                        setattr(mod, parts[-1], v)
+                    except Exception:
+                        pass
+                    break
+        logging.getLogger().setLevel(self.root_level)
+
+
+FRAME_KINDS = ["helper", "helper", "pop0", "pop0", "drop", "remove", "insert", "raise", "sysexit", "chdir", "pep517", "pep517_broken"]
+PEP517_TMPL = ('[build-system]\nrequires = ["setuptools"]\nbuild-backend = "setuptools.build_meta"\n[project]\nname = "{name}"\n'
+               '{ver}\ndependencies = ["own{i}>=1"]\n')
+
+
+def gen_frame_project(rng, i: int, helper: str, kind: Optional[str] = None) -> Dict[str, Any]:
+    kind = kind or rng.choice(FRAME_KINDS)
+    name = "fp%d" % i
+    version = "%d.%d" % (1 + i % 7, i % 5)
+    return {"i": i, "kind": kind, "name": name, "version": version, "helper": helper,
+            "packaging": "D" if kind.startswith("pep517") else rng.choice("DTZ"),
+            "relative": rng.random() < 0.5, "updir": rng.random() < 0.3}
+
+
+def frame_files(fp: Dict[str, Any]) -> List[Tuple[str, str]]:
+    i, kind, N = fp["i"], fp["kind"], fp["helper"]
+    body = "VERSION = %r\nREQUIRES = ['own%d>=1']\n" % (fp["version"], i)
+    if kind == "pep517":
+        return [("pyproject.toml", PEP517_TMPL.format(name=fp["name"], ver='version = "%s"' % fp["version"], i=i)), (fp["name"] + "/__init__.py", "")]
+    if kind == "pep517_broken":
+        return [("pyproject.toml", PEP517_TMPL.format(name=fp["name"], ver='dynamic = ["version"]', i=i)
+                 + '[tool.setuptools.dynamic]\nversion = {attr = "nosuchmodule%d.__version__"}\n' % i), (fp["name"] + "/__init__.py", "")]
+    pre = ["import os, sys", "here = os.path.dirname(os.path.abspath(__file__))"]
+    files = []
+    if kind == "insert":
+        files.append(("src/" + N + ".py", body))
+        pre.append("sys.path.insert(0, os.path.join(here, 'src'))")
+    else:
+        files.append((N + ".py", body))
+    pre.append("from %s import VERSION, REQUIRES" % N)
+    if kind == "pop0":
+        pre.append("sys.path.pop(0)   # remove current dir from sys.path")
+    elif kind == "drop":
+        pre.append("sys.path = [p for p in sys.path if p != here]")
+    elif kind == "remove":
+        pre.append("sys.path.remove(here)")
+    elif kind == "chdir":
+        files.append(("pkg/__init__.py", ""))
+        pre.append("os.chdir('pkg')")
+    elif kind == "raise":
+        pre.append("raise RuntimeError('this project cannot be analysed')")
+    pre.append("from setuptools import setup")
+    pre.append("setup(name=%r, version=VERSION, install_requires=REQUIRES)" % fp["name"])
+    if kind == "sysexit":
+        pre.append("sys.exit(0)")
+    files.append(("setup.py", "\n".join(pre) + "\n"))
+    return files
+
+
+def frame_model_project(fp: Dict[str, Any], lead: str, arg: str, real_dir: str) -> str:
+    k = fp["packaging"]
+    root = {"D": "/" + lead, "T": "/" + lead + ".tar.gz", "Z": "/" + lead + ".zip"}[k]
+    sd = root + "/" if k == "D" else root + "/" + lead
+    here = root if k == "D" else sd
+    kind, N = fp["kind"], fp["helper"]
+    if kind.startswith("pep517"):
+        return "{} {} {} {} - 0 0 R".format(fp["i"], "P1" if kind == "pep517_broken" else "P0", hx(arg), hx(real_dir))
+    ops = []
+    helpers = [(N, sd)]
+    if kind == "insert":
+        helpers = [(N, here + "/src")]
+        ops.append("A " + hx(here + "/src"))
+    ops.append("I " + hx(N))
+    if kind == "pop0":
+        ops.append("O")
+    elif kind == "drop":
+        ops.append("D " + hx(here))
+    elif kind == "remove":
+        ops.append("R " + hx(here))
+    elif kind == "chdir":
+        ops.append("C " + hx("pkg"))
+    ending = "X" if kind == "raise" else "E" if kind == "sysexit" else "R"
+    return "{} S {} {} {} {} {} {} {} {}".format(
+        fp["i"], hx(arg), hx(real_dir), hx(sd), len(helpers), " ".join(hx(n) + " " + hx(d) for n, d in helpers),
+        len(ops), " ".join(ops), ending)
+
+
+def dec_frame_answer(ans: str) -> List[Dict[str, Any]]:
+    out = []
+    for part in ans.split(" || "):
+        g, o, st = [x.strip().split() for x in part.split(" | ")]
+        n = int(o[1])
+        seen = [(unhx(x.split(":")[0]), int(x.split(":")[1])) for x in o[2:2 + n]]
+        failed, escaped = o[2 + n] == "1", o[3 + n] == "1"
+        i = 0
+        cwd = unhx(st[i]); i += 1
+        k = int(st[i]); path = [unhx(x) for x in st[i + 1:i + 1 + k]]; i += 1 + k
+        k = int(st[i]); hooks = k; i += 1 + k
+        k = int(st[i]); mods = sorted(unhx(x.split(":")[0]) for x in st[i + 1:i + 1 + k]); i += 1 + k
+        k = int(st[i]); pat = sorted(unhx(x) for x in st[i + 1:i + 1 + k])
+        out.append({"guard": g[0] == "1", "resolved": unhx(o[0]), "seen": seen, "failed": failed, "escaped": escaped,
+                    "state": {"cwd": cwd, "path": path, "hooks": hooks, "modules": mods, "patched": pat}})
+    return out
+
+
+def owner_of(obs: Any) -> Optional[int]:
+    import re
+    reqs = obs[3] if obs[0] in ("OK", "OKSEM") else []
+    for r in reqs:
+        m = re.match(r"own(\d+)", r)
+        if m:
+            return int(m.group(1))
+    return None
+
+
+def run_frame_sequence(enc440, MM, S, MetadataError, ws: Path, seq: List[Dict[str, Any]], names: List[str],
+                       real_egg_info: bool = False) -> List[Dict[str, Any]]:
+    """render the projects of seq, then analyse them in order in this process from ONE working directory
+    (the caller never chdirs in between); per step: observation and the global state after it"""
+    out = []
+    start = Frame(names)
+    cwd = ws
+    if seq and seq[0].get("updir"):
+        cwd = ws / "work" / "here"
+    cwd.mkdir(parents=True, exist_ok=True)
+    for fp in seq:
+        lead = "{}-{}".format(fp["name"], fp["version"])
+        paths = render(ws / ("p%d" % fp["i"]), lead, frame_files(fp))
+        target = paths[fp["packaging"]]
+        fp["_target"], fp["_lead"] = target, lead
+        fp["_arg"] = os.path.relpath(target, str(cwd)) if fp["relative"] else target
+    try:
+        os.chdir(cwd)
+        with Stubs(S, real_egg_info=real_egg_info):
+            for pos, fp in enumerate(seq):
+                before = Frame(names)
+                obs = observe_extract(enc440, MM, MetadataError, fp["_arg"], semantic=real_egg_info)
+                d = before.delta()
+                same = {"cwd": before.cwd, "path": before.path, "hooks": 0, "modules": [], "patched": []}
+                changed = {k: v for k, v in d.items() if v != same[k]}
+                if "path" in changed:
+                    changed["path"] = {"added": [x for x in d["path"] if x not in before.path],
+                                       "removed": [x for x in before.path if x not in d["path"]]}
+                out.append({"obs": obs, "changed": changed, "cwd_before": before.cwd, "path_before": before.path,
+                            "state": {"cwd": d["cwd"], "path": d["path"],
+                                      "hooks": len([h for h in sys.meta_path if all(h is not m for m in start.meta)]),
+                                      "modules": Frame.delta(start)["modules"], "patched": Frame.delta(start)["patched"]}})
+    finally:
+        start.restore()
+    return out
+
+
+def gen_frame_sequence(rng, base_i: int) -> List[Dict[str, Any]]:
+    N = rng.choice(SHARED_NAMES)
+    n = rng.choice([2, 3, 3, 4])
+    seq = [gen_frame_project(rng, base_i + j, N if rng.random() < 0.8 else rng.choice(SHARED_NAMES)) for j in range(n)]
+    r = rng.random()
+    if r < 0.35:          # the classic: a project that takes the setup dir off sys.path, then an ordinary one
+        seq[0] = gen_frame_project(rng, base_i, N, rng.choice(["pop0", "drop", "remove"]))
+        seq[1] = gen_frame_project(rng, base_i + 1, N, "helper")
+    elif r < 0.6:         # a failing PEP 517 backend, then a project named by a relative path
+        seq[0] = gen_frame_project(rng, base_i, N, "pep517_broken")
+        seq[1] = gen_frame_project(rng, base_i + 1, N, rng.choice(["helper", "pep517", "chdir"]))
+        seq[1]["relative"] = True
+    return seq
+
+
+def t2_frames(ctx: Ctx, enc440, MM, S, MetadataError) -> None:
+    rng = ctx.rng
+    names = frame_attr_names()
+    nseq = ctx.n(14, 300)
+    base = ctx.tmpdir() / "frames"
+    for sidx in range(nseq):
+        seq = gen_frame_sequence(rng, 100 * sidx)
+        ws = base / str(sidx)
+        ws.mkdir(parents=True, exist_ok=True)
+        steps = run_frame_sequence(enc440, MM, S, MetadataError, ws, seq, names)
+        # the model, started in the same cwd / sys.path
+        line = "S {} {} {} {}".format(hx(steps[0]["cwd_before"]), len(steps[0]["path_before"]), " ".join(hx(p) for p in steps[0]["path_before"]), len(seq))
+        for fp in seq:
+            line += " " + frame_model_project(fp, fp["_lead"], fp["_arg"], fp["_target"])
+        model = dec_frame_answer(run_model("C12", [line])[0])
+        diverged = False
+        for pos, (fp, st, mo) in enumerate(zip(seq, steps, model)):
+            case = {"sequence": [{k: v for k, v in f.items() if not k.startswith("_")} for f in seq], "position": pos}
+            ctx.count("frames:kind:" + fp["kind"])
+            ctx.count("frames:obs:" + st["obs"][0])
+            ctx.count("frames:inside-guard" if mo["guard"] else "frames:outside-guard")
+            ctx.case(key=("frame", json.dumps(case, sort_keys=True)), nontrivial=pos > 0,
+                     sample={"case": case, "impl": st["obs"], "changed": st["changed"]} if (sidx == 0 and pos == 1) else None)
+            # (i) model-independent: the frame condition itself, for scripts that add nothing to sys.path
+            if fp["kind"] != "insert" and st["changed"]:
+                ctx.mismatch("frame-condition", case, st["changed"], {})
+            # (ii) model-independent: the result is the project's own, whatever came before
+            own = owner_of(st["obs"])
+            if own is not None and own != fp["i"]:
+                ctx.mismatch("result-depends-on-history", case, {"served": own, "obs": st["obs"]}, {"own": fp["i"]})
+            if diverged:
+                continue
+            # (iii) correspondence with the model: the state after the analysis, and the outcome
+            if st["state"] != mo["state"]:
+                small = lambda x: {k: (v if k != "path" else v[:3] + ["..."]) for k, v in x.items()}
+                ctx.mismatch("frame-state", case, small(st["state"]), small(mo["state"]))
+                diverged = True
+            found = os.path.normpath(mo["resolved"]) == os.path.normpath(fp["_target"])
+            if not found:
+                want_obs: Any = ("EXC",)                  # "Source file/path ... does not exist"
+            elif mo["escaped"]:
+                want_obs = ("EXC",)
+            elif mo["failed"]:
+                want_obs = ("MetadataError",)
+            else:
+                want_obs = ("OK", [o for _, o in mo["seen"]][:1] or [fp["i"]])
+            got = st["obs"]
+            got_obs: Any = ("EXC",) if got[0] == "EXC" else ("MetadataError",) if got[0] == "MetadataError" else ("OK", [owner_of(got)])
+            if got_obs != want_obs:
+                ctx.mismatch("frame-outcome", case, got, want_obs)
+                diverged = True
+
+
+# ======================================================================================
 # module interface
 
 
 def translate(ctx: Ctx) -> Dict[str, str]:
     import tr_c12
-    return {"gen/HarvestC12Consts.v": tr_c12.generate()}
+    return {"gen/HarvestC12Consts.v": tr_c12.generate(), "gen/FrameC12Consts.v": tr_c12.generate_frame()}
 
 
 def correspondence(ctx: Ctx) -> None:
@@ -1454,6 +1778,7 @@ def correspondence(ctx: Ctx) -> None:
     t2_rendered(ctx, enc440, MM, S, MetadataError)
     t2_idioms(ctx, enc440, MM, S, MetadataError)
     t2_batches(ctx, enc440, MM, S, MetadataError)
+    t2_frames(ctx, enc440, MM, S, MetadataError)
     coq_recheck(ctx, enc440)
 
 
@@ -1511,6 +1836,27 @@ def finding_status(ctx: Ctx, entry: Dict[str, Any], enc440, MM, S, MetadataError
             obs = {k: observe_extract(enc440, MM, MetadataError, paths[k], semantic=True) for k in "DTZ"}
             bad = obs["D"][0].startswith("OK") and (obs["T"] != obs["D"] or obs["Z"] != obs["D"])
             return bad, obs
+        if kind == "order-dependence":
+            # project B alone vs. after project A (same directory / archive name, other location)
+            base = ctx.tmpdir() / "corpus" / (entry["id"] + "-b")
+            if base.exists():
+                shutil.rmtree(base)
+            pb = render(base, entry["lead"], [(f, c) for f, c in entry["files_b"]])
+            fr = Frame(frame_attr_names())
+            try:
+                S.FAILED_BUILDS.clear()
+                alone = observe_extract(enc440, MM, MetadataError, pb["D"], semantic=True)
+                S.FAILED_BUILDS.clear()
+                first = observe_extract(enc440, MM, MetadataError, paths["D"], semantic=True)
+                leaked = [x for x in sys.path if x not in fr.path]
+                after = observe_extract(enc440, MM, MetadataError, pb["D"], semantic=True)
+            finally:
+                fr.restore()
+                S.FAILED_BUILDS.clear()
+            return (alone != after and bool(leaked)), {"B alone": alone, "A": first[:2], "B after A": after, "left on sys.path": leaked}
+        if kind == "failure-not-metadata-error":
+            obs = observe_extract(enc440, MM, MetadataError, paths["D"])
+            return obs[0] == "EXC", obs
     raise ValueError("unknown check " + kind)
 
 
@@ -1629,9 +1975,62 @@ def oracle_batch(ctx: Ctx, enc440, MM, S, MetadataError, batch: List[Dict[str, A
     return None
 
 
+OK_KINDS = ("helper", "pop0", "drop", "chdir", "sysexit", "insert", "pep517")
+
+
+def oracle_frame_sequence(ctx: Ctx, enc440, MM, S, MetadataError, seq: List[Dict[str, Any]], tag: str) -> Optional[str]:
+    """the statement on the implementation only (real egg_info fall-back, no model): every analysable project of
+    the sequence must report ITS OWN declaration and be found where its (relative) path says, whatever was
+    analysed - or failed - before it; then, as the mechanism, the process state must be given back"""
+    from packaging.version import Version
+    seq = [{k: v for k, v in fp.items() if not k.startswith("_")} for fp in seq]
+    ws = ctx.tmpdir() / "oracle-frames" / tag
+    ws.mkdir(parents=True, exist_ok=True)
+    steps = run_frame_sequence(enc440, MM, S, MetadataError, ws, seq, frame_attr_names(), real_egg_info=True)
+    hist = []
+    for pos, (fp, st) in enumerate(zip(seq, steps)):
+        obs = st["obs"]
+        who = "project #%d (%s, %s, %s path) analysed after %s" % (
+            pos, fp["kind"], {"D": "directory", "T": ".tar.gz", "Z": ".zip"}[fp["packaging"]],
+            "relative" if fp["relative"] else "absolute", hist or "nothing")
+        hist.append(fp["kind"])
+        if fp["kind"] in OK_KINDS:
+            if obs[0] not in ("OK", "OKSEM"):
+                return who + ": reported as " + str(obs[:2]) + " although it is analysable alone"
+            own = owner_of(obs)
+            if own != fp["i"]:
+                return who + ": reports the requirements of project own%s instead of its own (own%d)" % (own, fp["i"])
+            if obs[1] != fp["name"] or obs[2] != enc440.ver_token(Version(fp["version"])):
+                return who + ": name/version %s %s differ from its declaration %s %s" % (obs[1], obs[2], fp["name"], fp["version"])
+    for pos, (fp, st) in enumerate(zip(seq, steps)):
+        if fp["kind"] != "insert" and st["changed"]:
+            return "after analysing project #%d (%s) the process state is not what it was: %s" % (pos, fp["kind"], json.dumps(st["changed"])[:300])
+    return None
+
+
 def search(ctx: Ctx) -> Optional[Dict[str, Any]]:
     enc440, MM, S, X, MetadataError = _imports()
     rng = ctx.rng
+    # sequences first: the frame condition (orders, failures, cwd)
+    tried = 0
+    for mm in ctx.mismatches:
+        c = mm.get("case")
+        if isinstance(c, dict) and "sequence" in c and tried < 8:
+            tried += 1
+            try:
+                why = oracle_frame_sequence(ctx, enc440, MM, S, MetadataError, c["sequence"], f"m{tried}")
+            except Exception:
+                why = None
+            if why:
+                return {"kind": "sequence", "input": {"sequence": [{k: v for k, v in f.items() if not k.startswith("_")} for f in c["sequence"]]}, "why": why}
+    for b in range(ctx.n(30, 200)):
+        seq = gen_frame_sequence(rng, 100000 + 100 * b)
+        try:
+            why = oracle_frame_sequence(ctx, enc440, MM, S, MetadataError, seq, f"f{b}")
+        except Exception:
+            why = None
+        if why:
+            return {"kind": "sequence", "input": {"sequence": [{k: v for k, v in f.items() if not k.startswith("_")} for f in seq]}, "why": why}
     # analysis-order suspects first: the disagreeing batches, then fresh ones in all orders
     import itertools
     seen_b = 0
@@ -1723,6 +2122,8 @@ def replay(ctx: Ctx, payload: Dict[str, Any]) -> bool:
     fi = payload.get("failing_input")
     if not fi:
         return False
+    if fi.get("kind") == "sequence":
+        return oracle_frame_sequence(ctx, enc440, MM, S, MetadataError, fi["input"]["sequence"], "replay") is not None
     if fi.get("kind") == "batch":
         b = fi["input"]
         return oracle_batch(ctx, enc440, MM, S, MetadataError, b["batch"], b["order"], b["kinds"], "replay") is not None
